@@ -1,5 +1,8 @@
 SPECIFICATION Spec
 CONSTANTS
-  StopRule = "minusDelay"
-  ChunkRule = "code"
+  StopRule = "plusDelay"
+  ChunkRule = "delayAware"
+  ReduceRule = "loop"
+  KeyRule = "fallback"
+  AssignRule = "strict"
 INVARIANT Emit
